@@ -1,6 +1,7 @@
 package world
 
 import (
+	"sort"
 	"bytes"
 	"encoding/binary"
 	"fmt"
@@ -87,6 +88,50 @@ func encodeFrame1(compression string, frm *frame.Frame) []byte {
 		panic(fmt.Sprintf("harness: cannot encode %v: %v", frm, err))
 	}
 	b := buf.Bytes()
+	// Go maps are encoded in iteration order, which differs between executions; bodies that are
+	// nothing but a map are rebuilt with sorted keys so that one seed is one byte sequence.
+	if !frm.Header.Flags.Contains(primitive.HeaderFlagCompressed) && frm.Header.Flags == 0 && len(b) >= hdrLen {
+		var body []byte
+		str := func(x string) { body = append(body, byte(len(x)>>8), byte(len(x))); body = append(body, x...) }
+		switch m := frm.Body.Message.(type) {
+		case *message.Startup:
+			if len(m.Options) > 1 {
+				ks := make([]string, 0, len(m.Options))
+				for k := range m.Options {
+					ks = append(ks, k)
+				}
+				sort.Strings(ks)
+				body = append(body, byte(len(ks)>>8), byte(len(ks)))
+				for _, k := range ks {
+					str(k)
+					str(m.Options[k])
+				}
+			}
+		case *message.Supported:
+			if len(m.Options) > 1 {
+				ks := make([]string, 0, len(m.Options))
+				for k := range m.Options {
+					ks = append(ks, k)
+				}
+				sort.Strings(ks)
+				body = append(body, byte(len(ks)>>8), byte(len(ks)))
+				for _, k := range ks {
+					str(k)
+					vs := m.Options[k]
+					body = append(body, byte(len(vs)>>8), byte(len(vs)))
+					for _, v := range vs {
+						str(v)
+					}
+				}
+			}
+		}
+		if body != nil {
+			if len(body) != len(b)-hdrLen {
+				panic("harness: canonical map body has another length than the reference encoding")
+			}
+			b = append(append([]byte(nil), b[:hdrLen]...), body...)
+		}
+	}
 	// The reference encoder counts 16 bytes of tracing id into the body length of *request* frames
 	// that merely carry the tracing flag (requests have no tracing id): correct the length field.
 	if len(b) >= hdrLen && int(binary.BigEndian.Uint32(b[5:9])) != len(b)-hdrLen {
